@@ -1,11 +1,11 @@
 """C11 — shortest-path solvers return true shortest distances and real paths."""
 
 ID = "C11"
-RULE = ("composite cases: one seeded digraph (1-9 nodes; strata aim at ties/zero-weight cycles, duplicate arcs with "
+RULE = ("composite cases: one seeded digraph (1-9 nodes, 10-16 in the bigger stratum; strata aim at ties/zero-weight cycles, duplicate arcs with "
         "different weights, self loops, detours that beat a direct arc, chains whose arcs are listed in reverse, "
         "negative weights with reachable / unreachable / absent negative cycles, dyadic float weights, arbitrary "
         "hashable labels, goal as value or (multi-node) predicate, max_cost / max_iter at the decisive boundary) is "
-        "given to every solver that accepts it (~45 calls: dijkstra, astar with h=0 / exact / half, dijkstra_edges, "
+        "given to every solver that accepts it (~45 calls plus a sweep of dijkstra/astar over every other target: dijkstra, astar with h=0 / exact / half, dijkstra_edges, "
         "bellman_ford, floyd_warshall directed+undirected, bfs, dfs, bfs_edges, dfs_edges; default and "
         "backend='python'); grid cases drive astar_grid (4/8 directions, every admissible built-in heuristic, "
         "terrain costs >= 1, blocked as int or set). Every answer is judged against exact all-pairs distances "
@@ -28,8 +28,9 @@ STRATA = [
     ("detour", 400, 7000),
     ("negative", 500, 9000),
     ("bf-chain", 300, 5000),
-    ("grid4", 500, 9000),
-    ("grid8", 500, 9000),
+    ("bigger", 300, 5000),
+    ("grid4", 1000, 18000),
+    ("grid8", 1000, 18000),
 ]
 REQUIRED_EVENTS = {"any": ["sp.distance", "sp.path", "sp.infeasible-iff-unreachable", "sp.unbounded-iff-negcycle",
                            "sp.matrix-entries", "sp.agree", "sp.max_cost", "sp.max_iter", "dfs.path", "reach.set",
@@ -118,11 +119,23 @@ def gen(stratum, rng, tier):
         return _gen_grid(rng, 8 if stratum == "grid8" else 4)
     negw = None
     if stratum == "random":
-        n = rng.randint(1, 8)
-        m = rng.randint(0, int(2.5 * n) + 1)
+        n = rng.randint(1, 8) if rng.random() < 0.2 else rng.randint(3, 8)
+        m = rng.randint(0, int(2.5 * n) + 1) if rng.random() < 0.25 else rng.randint(n, 3 * n)
         dy = rng.random() < 0.25
         pool = [0, 1, 1, 2, 3, 5, 7, 9]
         edges = [(rng.randrange(n), rng.randrange(n), (rng.randint(0, 36) / 4.0) if dy else rng.choice(pool)) for _ in range(m)]
+    elif stratum == "bigger":
+        # more competing routes: ordering mistakes in the frontier need room to show
+        n = rng.randint(10, 16)
+        m = rng.randint(2 * n, 4 * n)
+        pool = rng.choice([[1, 2, 3, 4, 5, 6, 7, 8, 9], [1, 1, 2, 3], [0, 1, 2, 5, 9], [2, 3, 5, 7, 11]])
+        edges = []
+        for _ in range(m):
+            a = rng.randrange(n)
+            b = (a + rng.choice([1, 1, 2, 3, -1, rng.randrange(n)])) % n  # mostly local arcs: long shortest paths
+            edges.append((a, b, rng.choice(pool)))
+        if rng.random() < 0.5:
+            negw = [w if rng.random() < 0.85 else -rng.randint(1, 2) for _, _, w in edges]
     elif stratum == "zero-ties":
         n = rng.randint(2, 8)
         m = rng.randint(n, 3 * n)
@@ -133,8 +146,8 @@ def gen(stratum, rng, tier):
         cyc = rng.sample(range(n), k)
         edges += [(cyc[i], cyc[(i + 1) % k], 0) for i in range(k)]
     elif stratum == "multi":
-        n = rng.randint(1, 7)
-        m = rng.randint(1, 2 * n + 1)
+        n = rng.randint(1, 7) if rng.random() < 0.2 else rng.randint(3, 7)
+        m = rng.randint(1, 2 * n + 1) if rng.random() < 0.25 else rng.randint(n, 2 * n + 1)
         dy = rng.random() < 0.2
         w = (lambda: rng.randint(0, 24) / 4.0) if dy else (lambda: rng.randint(0, 9))
         edges = [(rng.randrange(n), rng.randrange(n), w()) for _ in range(m)]
@@ -289,7 +302,11 @@ def _gen_grid(rng, directions):
         if rng.random() < 0.3:
             costs = {k: float(v) for k, v in costs.items()}
     forced = None
-    if rows >= 3 and cols >= 2 and rng.random() < 0.4:
+    barrier = rng.random() < 0.4
+    if barrier:
+        rows, cols = rng.randint(3, 8), rng.randint(3, 8)
+        grid = [[(1 if rng.random() < dens / 2 else 0) for _ in range(cols)] for _ in range(rows)]
+    if barrier:
         # a barrier row between start and goal with a single gap: a wall (detour needed) or a band of
         # expensive terrain (detour pays off only sometimes) -- greedy / overestimating searches go wrong here
         wr = rng.randrange(1, rows - 1)
@@ -300,8 +317,8 @@ def _gen_grid(rng, directions):
         grid[wr][gap] = 0
         if band:
             costs = dict(costs or {})
-            costs[2] = rng.choice([2, 3, 4, 5, 2.5])
-        far = cols - 1 - gap if gap in (0, cols - 1) else rng.randrange(cols)
+            costs[2] = rng.choice([2, 3, 4, 5, 7, 9, 2.5])
+        far = cols - 1 - gap if gap in (0, cols - 1) and rng.random() < 0.5 else rng.randrange(cols)
         a = (rng.randrange(0, wr), min(cols - 1, max(0, far + rng.choice([-1, 0, 0, 1]))))
         b = (rng.randrange(wr + 1, rows), min(cols - 1, max(0, far + rng.choice([-1, 0, 0, 1]))))
         for p in (a, b):
@@ -458,10 +475,10 @@ class _Judge:
         if st == "INFEASIBLE" or res.solution is None:
             if st in _OK:
                 obs.violate("sp.status", f"{who}: status {st} without a path")
+            if not beyond_ok and shortest:
+                self.note(key, who, "INF")
             if dist is not None and not beyond_ok:
                 obs.violate("sp.infeasible-but-reachable", f"{who}: status {st}, but the goal is at distance {_fmt(dist)}")
-            elif not beyond_ok and shortest:
-                self.note(key, who, "INF")
             return
         if st not in _OK:
             obs.violate("sp.status", f"{who}: unknown status {st} with a path")
@@ -484,10 +501,9 @@ class _Judge:
         got = _G.exact(res.objective)
         if beyond_ok:
             return  # valid, faithfully priced path beyond the budget: accepted
+        self.note(key, who, got)  # what this solver says, right or wrong: compared pairwise in agree()
         if got != dist:
             obs.violate("sp.wrong-distance", f"{who}: reported {res.objective!r} with path {path!r}, shortest distance is {_fmt(dist)}")
-        else:
-            self.note(key, who, got)
 
     def agree(self):
         for key, rep in self.reported.items():
@@ -523,7 +539,7 @@ def _nb_factory(case, labels, arcs, weighted, seed_off=0):
 def _run_graph(case, obs):
     from vf.common import call, is_crash, short, status_name
 
-    B = 400_000
+    B = 100_000  # observed maximum on the unchanged tree: < 5 000 steps
     n = case["n"]
     labels = case["labels"]
     arcs = [tuple(e) for e in case["edges"]]
@@ -578,6 +594,33 @@ def _run_graph(case, obs):
             res = call(obs, astar, labels[s], gobj, nb, h, what=f"astar[{gname},{hname}]", budget=B)
             if not is_crash(res):
                 J.target_query(f"astar[{gname},{hname}]", res, s, gs, dist, key, labelled=True)
+
+    # --- sweep: every other target from the same source ("for every queried pair"), own heuristic per target
+    others = [j for j in range(n) if j != t]
+    if len(others) > 8:
+        from random import Random
+
+        others = sorted(Random(case["nb_seed"]).sample(others, 8))
+    for j in others:
+        to_j = _G.dist_to_set(n, arcs, [j])
+
+        def hj_exact(x, to_j=to_j):
+            v = to_j[J.back[x]]
+            return float(big if v is None else v)
+
+        def hj_half(x, to_j=to_j):
+            v = to_j[J.back[x]]
+            v = big if v is None else v
+            return float(v // 2) if all_int else float(v) / 2
+
+        key = ("w", s, (j,))
+        res = call(obs, dj, labels[s], labels[j], nb, what=f"dijkstra[to {j}]", budget=B)
+        if not is_crash(res):
+            J.target_query(f"dijkstra[to {j}]", res, s, [j], D[s][j], key, labelled=True)
+        for hname, h in (("hexact", hj_exact), ("hhalf", hj_half)):
+            res = call(obs, astar, labels[s], labels[j], nb, h, what=f"astar[to {j},{hname}]", budget=B)
+            if not is_crash(res):
+                J.target_query(f"astar[to {j},{hname}]", res, s, [j], D[s][j], key, labelled=True)
 
     # --- limits
     mc, mi = case["max_cost"], case["max_iter"]
@@ -705,11 +748,11 @@ def _judge_dist_map(obs, who, res, row, J, keyp):
         got = {k: _G.exact(v) for k, v in res.solution.items() if v != float("inf")}
     except (ValueError, OverflowError, TypeError):
         got = None
+    if got is not None:
+        for i in range(len(row)):
+            J.note(keyp + ((i,),), who, got.get(i, "INF"))  # raw answers, compared pairwise in agree()
     if got != want:
         obs.violate("sp.wrong-distance", f"{who}: distances {res.solution!r}, oracle { {k: float(v) for k, v in want.items()} }")
-        return
-    for i, d in enumerate(row):
-        J.note(keyp + ((i,),), who, "INF" if d is None else d)
 
 
 def _bf_fw(obs, J, bf, fw, n, arcs, s, t, D, neg_any, neg_reach, kw, tag, fam, B):
@@ -787,9 +830,12 @@ def _bf_fw(obs, J, bf, fw, n, arcs, s, t, D, neg_any, neg_reach, kw, tag, fam, B
         if bad:
             cls = "sp.infeasible-but-reachable" if bad[2] == float("inf") else "sp.wrong-distance"
             obs.violate(cls, f"{who}: dist[{bad[0]}][{bad[1]}] = {bad[2]!r}, oracle {bad[3]}")
-        elif directed:
+        if directed:
             for j in range(n):
-                J.note((fam, s, (j,)), who, "INF" if M[s][j] is None else M[s][j])
+                try:
+                    J.note((fam, s, (j,)), who, "INF" if sol[s][j] == float("inf") else _G.exact(sol[s][j]))
+                except (ValueError, OverflowError, TypeError):
+                    J.note((fam, s, (j,)), who, repr(sol[s][j]))
 
 
 # ---------------------------------------------------------------- grid cases
@@ -815,13 +861,19 @@ def _run_grid(case, obs):
         kw["blocked"] = blocked if isinstance(blocked, int) else set(blocked)
     if case["costs"]:
         kw["costs"] = dict(case["costs"])
-    runs = [("astar_grid", dict(kw), None)]
+    runs = [(f"astar_grid[{case['heuristic']}]", dict(kw), None)]
+    for hname in (("manhattan", "octile", "euclidean", "chebyshev", "auto") if directions == 4
+                  else ("octile", "euclidean", "chebyshev", "auto")):
+        if hname != case["heuristic"]:
+            k2 = dict(kw)
+            k2["heuristic"] = hname
+            runs.append((f"astar_grid[{hname}]", k2, None))
     if case["max_iter"] is not None:
         k2 = dict(kw)
         k2["max_iter"] = case["max_iter"]
         runs.append((f"astar_grid[max_iter={case['max_iter']}]", k2, case["max_iter"]))
     for who, k, mi in runs:
-        res = call(obs, _m["a_star"].astar_grid, arg_grid, start, goal, what=who, budget=600_000, **k)
+        res = call(obs, _m["a_star"].astar_grid, arg_grid, start, goal, what=who, budget=100_000, **k)
         if is_crash(res):
             continue
         st = status_name(res)
